@@ -66,23 +66,10 @@ def parseReorder (a : List Int) : Op :=
 
 def checkName (b : Bool) : String := if b then "ok" else "throw:runtime_error"
 
-/-- re-tabulate the vectors (driver only): long histories stack thousands of `upd` closures; the
-values inside the sizes — the only ones read on `Inv` states — are unchanged -/
-@[noinline] def tabOf {α : Type} (d : α) (l : Array α) : Int → α := fun i => if i < 0 then d else l.getD i.toNat d
-@[noinline] def tab {α : Type} (n : Nat) (f : Int → α) : Int → α :=
-  let l := ((State.intsUpTo n).map f).toArray
-  let d := f (-1)
-  tabOf d l
-
-def compact (s : State) : State :=
-  { s with rowFirst := tab s.nRows s.rowFirst, rowLast := tab s.nRows s.rowLast,
-           pred := tab s.nCells s.pred, next := tab s.nCells s.next, row := tab s.nCells s.row,
-           x := tab s.nCells s.x, y := tab s.nCells s.y, orient := tab s.nCells s.orient }
-
 /-- apply a checked step; `loud` = primitives stream (always answers), otherwise history stream -/
 def doStep (d : DS) (s : State) (name : String) (op : Op) (loud : Bool) : DS × List String :=
   match s.step op with
-  | .ok t => ({ d with st := some (if loud then t else compact t) }, if loud then [name ++ " ok"] else [])
+  | .ok t => ({ d with st := some t }, if loud then [name ++ " ok"] else [])
   | .error e => (d, [if loud then name ++ " " ++ errName e else "rejected " ++ name ++ " " ++ errName e])
 
 def stepLine (d : DS) (ws : List String) : DS × List String :=
